@@ -32,6 +32,14 @@ def cases(seed, tier):
         out.append({"group": "extra", "kind": "sharedbck", "seed": sub_seed(seed, "c08ys", i),
                     "first": ["euler", "rk4", "euler", "rk23"][i % 4], "preview_nograd": i % 3 != 2, "decreasing": rng.random() < 0.4,
                     "ncalls": rng.choice([2, 3])})
+    # long horizons in units of the contraction rate (rate x T = 15 .. 40) with many requested times: the backward pass must restart from the
+    # STORED forward state at every requested time (re-integrating y backwards over the whole span amplifies errors like exp(rate x T))
+    nst = 20 if tier == "quick" else 160
+    for i in range(nst):
+        rng = random.Random(sub_seed(seed, "c08w", i))
+        out.append({"group": "extra", "kind": "long_horizon", "seed": sub_seed(seed, "c08ws", i), "method": ["rk45", "rk45", "rk23", "rk4"][i % 4],
+                    "rate": rng.choice([6.0, 8.0, 10.0]), "T": rng.choice([2.5, 3.0, 4.0]), "nt": rng.choice([11, 21, 41]), "decreasing": rng.random() < 0.3,
+                    "cot": rng.choice(["all", "one_interior", "last"]), "bck": rng.choice(["same", "rk23", "rk45"])})
     nab = 36 if tier == "quick" else 300
     for i in range(nab):
         rng = random.Random(sub_seed(seed, "c08z", i))
@@ -233,6 +241,65 @@ def run_sharedbck(desc):
     return obs.result()
 
 
+def run_long_horizon(desc):
+    """logistic growth dy/dt = r y (1 - y): closed form y(t) = 1 / (1 + (1/y0 - 1) exp(-r (t - t0))); gradients w.r.t. y0, r and every time"""
+    from xitorch.integrate import solve_ivp
+    obs = Obs(desc)
+    rng = random.Random(desc["seed"])
+    tg = torch.Generator().manual_seed(desc["seed"])
+    r0, T, nt, method = desc["rate"], desc["T"], desc["nt"], desc["method"]
+    t0 = rng.uniform(-0.3, 0.3)
+    ts_l = [t0 + T * k / (nt - 1) for k in range(nt)]
+    y0v = torch.tensor([rng.uniform(0.02, 0.1), rng.uniform(0.3, 0.6)], dtype=DT)
+    sgn = 1.0
+    if desc["decreasing"]:
+        # decreasing times with the sign of the right-hand side flipped: still contracting in the direction of integration
+        ts_l = ts_l[::-1]
+        sgn = -1.0
+    r = torch.tensor(r0, dtype=DT, requires_grad=True)
+    y0 = y0v.clone().requires_grad_()
+    ts = torch.tensor(ts_l, dtype=DT, requires_grad=True)
+    fixed = method == "rk4"
+    opts = {} if fixed else dict(rtol=1e-9, atol=1e-11)
+    bck = {}
+    if desc["bck"] != "same" and not fixed:
+        bck = dict(method=desc["bck"], rtol=1e-9, atol=1e-11)
+    C = torch.zeros(nt, 2, dtype=DT)
+    if desc["cot"] == "all":
+        C = torch.randn(nt, 2, generator=tg, dtype=DT)
+    elif desc["cot"] == "one_interior":
+        C[rng.randrange(1, nt - 1)] = torch.randn(2, generator=tg, dtype=DT)
+    else:
+        C[-1] = torch.randn(2, generator=tg, dtype=DT)
+    mech = "long_horizon:%s:%s:%s" % (method, desc["cot"], "dec" if desc["decreasing"] else "inc")
+    if fixed:
+        # a fixed-step scheme on this grid is only compared with itself on a refined grid: here, with the adaptive reference at loose tolerance
+        obs.skip("fixed-step schemes are not accurate enough on this grid for a closed-form comparison")
+        return obs.result()
+    try:
+        yt = solve_ivp(lambda t, y, rr: sgn * rr * y * (1.0 - y), ts, y0, params=(r,), method=method, bck_options=bck, **opts)
+        g = torch.autograd.grad((yt * C).sum(), (y0, r, ts), allow_unused=True)
+    except Exception as e:
+        obs.exc_violation("extra:" + mech, e)
+        obs.nontrivial = True
+        return obs.result()
+    y02, r2, ts2 = y0.detach().clone().requires_grad_(), r.detach().clone().requires_grad_(), ts.detach().clone().requires_grad_()
+    yref = 1.0 / (1.0 + (1.0 / y02 - 1.0) * torch.exp(-sgn * r2 * (ts2.unsqueeze(-1) - ts2[0])))
+    gr = torch.autograd.grad((yref * C).sum(), (y02, r2, ts2), allow_unused=True)
+    verr = float((yt.detach() - yref.detach()).abs().max())
+    obs.check(verr <= 1e-6, "extra:value:" + mech, "trajectory differs from the closed form by %.3e" % verr)
+    for nm, gi, ri, leaf in zip(("y0", "r", "ts"), g, gr, (y0, r, ts)):
+        gi = torch.zeros_like(leaf) if gi is None else gi
+        ri = torch.zeros_like(leaf) if ri is None else ri
+        err = float((gi - ri).abs().max())
+        sc = 1.0 + float(ri.abs().max())
+        obs.check(err <= 1e-5 * sc, "extra:grad:%s:%s" % (nm, mech),
+                  "gradient w.r.t. %s over a horizon of rate x T = %.0f with %d requested times differs from the closed form by %.3e (scale %.2e)" % (nm, r0 * T, nt, err, sc))
+    obs.count("long_horizon_compared")
+    obs.nontrivial = True
+    return obs.result()
+
+
 class _Injected(Exception):
     pass
 
@@ -375,4 +442,6 @@ def run_case(desc):
         return run_switch(desc)
     if desc["kind"] == "abort_reuse":
         return run_abort_reuse(desc)
+    if desc["kind"] == "long_horizon":
+        return run_long_horizon(desc)
     return run_sharedbck(desc)
